@@ -77,6 +77,10 @@ func init() {
 	hx.Registry["c08-life"] = mkC08("c08-life", 1, 1<<20)
 	// without readers and with the default map size: commits that grow the file issue mmap, truncate and fsync calls
 	hx.Registry["c08-grow"] = mkC08("c08-grow", 0, 0)
+	// the same fault exploration, judged by other properties' oracles (C07: accounting after failed transactions;
+	// C02: readers held across failed transactions keep their snapshot)
+	hx.Registry["c07-fault"] = mkC08("c07-fault", 1, 1<<20)
+	hx.Registry["c02-fault"] = mkC08("c02-fault", 2, 1<<20)
 }
 
 // C08: a failed commit changes nothing and leaves the database usable.
